@@ -96,6 +96,24 @@ ASSUMPTIONS["C12"] = ["ids are never -1 / '' / '-1' (documented no-parent sentin
                       "theorems are about the model of the pipeline as repaired (fix commits D9, D9b, D9c); C12_counterexample_unfixed refutes the unrepaired id remapping",
                       "cycles and backward links in a table are not among the property's malformations and are imported"]
 
+# ---- C14, C15, C16 (family export) -------------------------------------------------------------
+for _p in ("C14", "C15", "C16"):
+    FAMILY[_p] = "fam_export"
+REQUIRED_THEOREMS["C14"] = ["C14_csv", "C14_geff", "C14_geff_loaded", "C14_geff_loaded_edge", "C14_internal"]
+REQUIRED_THEOREMS["C15"] = ["C15_closure", "C15_closure_files", "C15_parent_closed", "C15_edges", "C15_edges_csv", "C15_seg", "C15_seg_csv"]
+REQUIRED_THEOREMS["C16"] = ["C16_readonly", "C16_readonly_eq", "C16_counterexample_unfixed", "C16_repair_same_output"]
+_EXPORT_TB = ["pandas / zarr / json / numpy / tifffile file I/O are carriers of the opaque value tokens (files written by the real exporters are read back with csv/zarr/json-level readers and compared with the model's encode)",
+              "networkx ancestors / subgraph and the geff write / construct path are trusted library code"]
+for _p in ("C14", "C15", "C16"):
+    TRUSTED_BASE[_p] = list(_EXPORT_TB)
+ASSUMPTIONS["C14"] = ["the tracks are a forward-in-time forest with consistent ids (reachable states)",
+                      "floats re-imported from CSV are accepted within 4 ulp (pandas' default float parser is not last-bit exact; 2 ulp observed); the CSV file itself is compared exactly",
+                      "GEFF import refuses (ValueError in validate_graph_seg_match) a store whose loaded position lies outside the node's own mask (non-convex masks, ~15% of generated arrays): the importer's documented precondition; those cases are re-imported without the position key and must then be exact",
+                      "the default CSV layout carries no lineage id and no extra features (nothing to compare there)"]
+ASSUMPTIONS["C15"] = ["the selection is a subset of the graph's nodes (a selection naming an unknown node must raise on both sides)"]
+ASSUMPTIONS["C16"] = ["lookups are compared as sets (get_track_neighbors re-sorts the list it reads, as the property allows); _get_new_node_ids is documented to advance a counter and is not a read-only query",
+                      "C16's theorem is near-trivial once the model returns the state; the assurance rests on the type-faithful deep-snapshot oracle and the output correspondence"]
+
 # ---- session family: texts ---------------------------------------------------------------------
 _SESSION_TB = [
     "networkx DiGraph: insertion-ordered adjacency, degree, has_edge, remove_node drops incident edges (modelled as such)",
@@ -149,6 +167,12 @@ LEVEL_TEXT.update({
     "C19": "Uniqueness across frames and per-frame partition preservation are Lean theorems about the fold with the carried running maximum, for arrays of any size; relabel-by-track is proved against the inductive relation 'same unbranched segment' (the executable component computation is proved sound and complete); brute-force oracles on the real return values, flat arrays compared with the model.",
     "C13": "Pixel-exact characterisation of relabel_segmentation (masks read from the original, written into zeros) for arrays and assignments of any size incl. reused labels, permutations, unlisted labels and id 0 with the joint graph shift; the in-place variant is proved not to satisfy it; direct calls and the public tracks_from_df path checked against a brute-force oracle and the model.",
 })
+LEVEL_TEXT["C14"] = ("decode(encode s) = s for the CSV, GEFF and internal formats at table level (position split per axis and recombined, parent column, loaded features, array, scale, registry) are Lean theorems for tracks of any size; "
+                    "real round trips after random editing sessions, and the files the real exporters wrote are compared with the model's encode.")
+LEVEL_TEXT["C15"] = ("Exported node set = ancestor closure of the selection (executable climbing proved sound and complete against the inductive ancestor relation), parent-closed, edges = induced edges, array masked pointwise: Lean theorems; "
+                    "random subsets on random forests through the real CSV/GEFF exporters against a brute-force closure and the model.")
+LEVEL_TEXT["C16"] = ("Every modelled read-only operation returns the state unchanged (near-trivial theorem, stated plainly); the unrepaired GEFF exporter is proved to change the scale; the weight is on the deep-snapshot oracle "
+                    "(graph, all attributes, array bytes, scale incl. type, registry, lookups as sets, history) around every export/save/query on the real object.")
 LEVEL_TEXT["C12"] = ("Node/edge/attribute faithfulness, first-occurrence renumbering and the four rejection classes are Lean theorems about a table-level "
                     "model of the import pipeline (load_source, _ensure_integer_ids, rename, stack, validate, construct) for tables of any size; random DataFrames, "
                     "CSV files and GEFF stores incl. every malformation class go through the real importers and the model.")
